@@ -19,3 +19,9 @@ claim("C04",
       "Decides how every expression is grouped: relative order of each adjacent pair of precedence levels, associativity per level, one level per operator, operand level of prefix operators and casts, continuation of the signed-number split, and the token→constructor table (coverage, distinctness, operand order, compound assignments). It does not decide what the evaluator computes for the grouped tree.",
       "assumes the parser stays a recursive-descent ladder (otherwise the check fails with an unresolved anchor rather than a verdict); operators identified by token.TokenDefinitions literals; reference table restates the property statement",
       "DESIGN.md §2 C04")
+
+claim("C03",
+      "type-narrowing and zero/sign fact dataflow over the operator nodes (structured abstract interpreter); sibling cross-check of boolean contexts against data.AsBool",
+      "Decides the no-crash clause for operators (every operand type assertion is dominated by a type test or uses the comma-ok form; every division's divisor value and every signed shift count is checked on all paths) and the context-independence clause of truthiness (every boolean context decides through data.AsBool and none inspects a payload itself). Arithmetic results, ==/<=> laws and AsBool's own answers are value-level and not decided.",
+      "operator node set derived from the constructors; facts killed on assignment; calls assumed not to modify locals; Go panic conditions as oracle",
+      "DESIGN.md §2 C03")
